@@ -176,3 +176,47 @@ Proof.
   rewrite (fnostopb_true fs Hf). cbn [negb]. rewrite andb_false_r.
   now rewrite (restop_features_id fs Hf).
 Qed.
+
+Lemma fnostopb_Forall : forall fs, forallb fnostopb fs = true -> Forall fnostop fs.
+Proof.
+  induction fs as [|f tl IH]; intro H; [constructor|]. cbn [forallb] in H.
+  apply andb_true_iff in H. destruct H as [Hf Ht]. constructor; [|now apply IH].
+  assert (G : forall b, negb (existsb (N.eqb 0) b) = true -> ~ In 0 b).
+  { intros b Hb Hin. apply negb_true_iff in Hb.
+    assert (E : existsb (N.eqb 0) b = true) by (apply existsb_exists; exists 0; split; [assumption|reflexivity]).
+    congruence. }
+  destruct f; cbn [fnostopb fnostop] in *; try exact I; now apply G.
+Qed.
+
+(* since /repo 61aefd0 ([stop_byte_refused] = true): the byte level of the SC / IN series never
+   changes a record silently - for EVERY record it either changes nothing or the writer answers
+   InvalidInput *)
+Theorem roundtrip_stop_same_or_refused : forall sm refseq seq quals ops start,
+  roundtrip_stop sm refseq seq quals ops start = roundtrip sm refseq seq quals ops start \/
+  roundtrip_stop sm refseq seq quals ops start = RInvalidInput.
+Proof.
+  intros sm refseq seq quals ops start. unfold roundtrip_stop, roundtrip.
+  destruct (negb (len (record_quals (record_read_length seq ops) quals) =? record_read_length seq ops));
+    [now left|].
+  destruct (len refseq <? start); [now left|].
+  destruct (record_features refseq seq (record_quals (record_read_length seq ops) quals) ops start)
+    as [ws|]; [|now left].
+  destruct (encode_features sm ws) as [fs|]; [|now left].
+  destruct (forallb fnostopb fs) eqn:E.
+  - left. cbn [negb]. rewrite andb_false_r. now rewrite (restop_features_id fs (fnostopb_Forall fs E)).
+  - right. reflexivity.
+Qed.
+
+(* ... and it is refused exactly when a stored soft clip / insertion holds a NUL byte *)
+Theorem roundtrip_stop_nul_rejected : forall sm refseq seq quals ops start ws fs,
+  len (record_quals (record_read_length seq ops) quals) = record_read_length seq ops ->
+  start <= len refseq ->
+  record_features refseq seq (record_quals (record_read_length seq ops) quals) ops start = Some ws ->
+  encode_features sm ws = Some fs -> forallb fnostopb fs = false ->
+  roundtrip_stop sm refseq seq quals ops start = RInvalidInput.
+Proof.
+  intros sm refseq seq quals ops start ws fs Hq Hs Hr He Hf. unfold roundtrip_stop.
+  rewrite Hq, N.eqb_refl. cbn [negb].
+  destruct (N.ltb_spec (len refseq) start) as [Hlt|_]; [lia|].
+  rewrite Hr, He, Hf. reflexivity.
+Qed.
